@@ -1,4 +1,5 @@
 """C04 -- Secure Binary 2.x: the ROM decodes exactly the command list that was given (DESIGN.md section 3, C04)."""
+import base64
 import hashlib
 import hmac as py_hmac
 import os
@@ -17,6 +18,40 @@ WORKDIR = os.path.join(vlib.WORK, "C04")
 KEYDIR = os.path.join(WORKDIR, "keys")
 EPOCH2000 = 946684800
 SHA_BIT = 0x8000
+
+
+def materialise_keys():
+    """Write the committed key / certificate fixture (tools/props/c04.keys.json) into .work/C04/keys."""
+    import json
+    fx = json.load(open(os.path.join(os.path.dirname(os.path.abspath(__file__)), "c04.keys.json")))["files"]
+    os.makedirs(KEYDIR, exist_ok=True)
+    for name, b64 in fx.items():
+        data = base64.b64decode(b64)
+        path = os.path.join(KEYDIR, name)
+        try:
+            if open(path, "rb").read() == data:
+                continue
+        except FileNotFoundError:
+            pass
+        with open(path + ".tmp", "wb") as f:
+            f.write(data)
+        os.replace(path + ".tmp", path)
+    return len(fx)
+
+
+class HarnessProblem(Exception):
+    pass
+
+
+def run_runner(payload, timeout=3000):
+    """vlib.run_impl, with every failure of the runner process itself turned into a HarnessProblem."""
+    try:
+        r = vlib.run_impl("c04_impl.py", payload, timeout=timeout)
+    except Exception as ex:  # noqa
+        raise HarnessProblem(f"implementation runner: {type(ex).__name__}: {str(ex)[-1500:]}")
+    if r.get("harness_error"):
+        raise HarnessProblem(r["harness_error"])
+    return r
 
 
 def rnd_pattern(n):
@@ -439,8 +474,7 @@ THEOREM_FILES = ["cmd_roundtrip", "rom_cmd_decodes", "cmd_stream_roundtrip", "he
                  "sections_all", "coverage21", "spsdk_parse21_build", "spsdk_parse21_build_aes", "parse21_accepts_only_verified"]
 
 
-def run(tier):
-    rep = vlib.Report(PID, tier)
+def _run(tier, rep):
     import time as _t
     t0 = _t.time()
 
@@ -448,7 +482,11 @@ def run(tier):
         vlib.log(f"  [{_t.time() - t0:6.1f} s] {what}")
     rng = vlib.Rng(vlib.seed())
     thorough = tier == "thorough"
-    os.makedirs(KEYDIR, exist_ok=True)
+    try:
+        nfix = materialise_keys()
+        rep.obligation("harness:key and certificate fixture tools/props/c04.keys.json written to .work/C04/keys", True, f"{nfix} files")
+    except Exception as ex:  # noqa
+        rep.obligation("harness:key and certificate fixture tools/props/c04.keys.json written to .work/C04/keys", False, repr(ex))
     # (T1) constants / layouts regenerated from the current source
     try:
         regen_c04.regen()
@@ -485,13 +523,20 @@ def run(tier):
         ops.append({"op": "build", "case": case, "parses": parses})
     # the runner needs non-negative offsets: resolve negative ones in a second pass -> simpler: two-phase run
     chains_needed = sorted({c["chain"] for c in cases})
-    res1 = vlib.run_impl("c04_impl.py", {"keydir": KEYDIR, "need_chains": chains_needed,
+    res1 = run_runner({"keydir": KEYDIR, "need_chains": chains_needed,
                                           "ops": [({"op": "build_cfg", "case": c, "workdir": os.path.join(WORKDIR, "cfg", str(i))}
                                                    if c.get("via") == "config" else {"op": "build", "case": c, "parses": []})
                                                   for i, c in enumerate(cases)]}, timeout=3000)
     shutil.rmtree(os.path.join(WORKDIR, "cfg"), ignore_errors=True)
     built = res1["results"]
     chain_info = res1["chains"]
+    if res1.get("generated"):
+        vlib.log(f"  note: key material not in the fixture was generated: {res1['generated']}")
+    hp = [(i, b["harness_error"]) for i, b in enumerate(built) if "harness_error" in b]
+    rep.obligation("harness:set-up of signature providers / certificate chains for every case", not hp, "; ".join(f"case {i}: {m}" for i, m in hp[:5]))
+    for i, _ in hp:
+        built[i] = {"export": ["e", 0, "harness"]}      # skipped by every oracle and correspondence below
+    rom_tool_problems = []
     ops2, opmap = [], []
     for i, (case, b) in enumerate(zip(cases, built)):
         if b["export"][0] != "ok":
@@ -507,7 +552,7 @@ def run(tier):
                 d = d[:len(d) + p["cut"]]
             ops2.append({"op": "parse", "data": bytes(d).hex(), "kek": p["kek"]})
             opmap.append((i, p, bytes(d)))
-    res2 = vlib.run_impl("c04_impl.py", {"keydir": KEYDIR, "need_chains": [], "ops": ops2}, timeout=3000)["results"]
+    res2 = run_runner({"keydir": KEYDIR, "need_chains": [], "ops": ops2}, timeout=3000)["results"]
 
     lap("implementation: files built and parsed")
     # ------------------------------------------------------------------ oracles on the implementation's output
@@ -515,6 +560,8 @@ def run(tier):
     sig_of = {}
     for i, (case, b) in enumerate(zip(cases, built)):
         ex = b["export"]
+        if ex[0] != "ok" and ex[1] == 0:
+            continue           # harness set-up problem, reported above
         if ex[0] != "ok":
             if case_valid(case):
                 cinf = chain_info[case["chain"]]
@@ -537,7 +584,13 @@ def run(tier):
         r = None
         try:
             r = py_rom21(data, bytes.fromhex(case["kek"]), pub)
-        except RomReject as rr:
+        except Exception as tool_ex:  # noqa  (anything but a verdict of the reference ROM is a problem of the oracle tool)
+            if not isinstance(tool_ex, RomReject):
+                rom_tool_problems.append(f"case {i}: {type(tool_ex).__name__}: {tool_ex}")
+                sl = 208 + cb["raw_size"] + (32 if sha else 0)
+                sig_of[i] = (sl, data[sl:sl + ci["leaf_size"]])
+                continue
+            rr = tool_ex
             what = str(rr)
             sig = "rom21:rejects:" + what.split(":")[0].replace(" ", "-")
             if what.startswith("block counts") and sha:
@@ -585,6 +638,8 @@ def run(tier):
         if b["raw_size"] != len(data):
             rep.failing("raw_size:" + ("sig-size-mismatch" if mixed else "sha-flag" if sha else "no-sha"), f"BootImageV21.raw_size = {b['raw_size']} but export() returned {len(data)} bytes",
                         {"kind": "build", "case": case})
+    rep.obligation("harness:reference ROM (cryptography AES / key unwrap, hashlib) ran on every file", not rom_tool_problems,
+                   "; ".join(rom_tool_problems[:5]))
     # --- SPSDK's own parser
     n_parse_ok = n_parse_rej = 0
     for (i, p, d), r in zip(opmap, res2):
@@ -626,7 +681,7 @@ def run(tier):
     cmd_cases += [[2, U32 + 1, 0, "00", 1], [3, 0, 1 << 32, 4], [3, 0, 1, 6], [3, U32 + 1, 1, 4], [4, U32 + 1, 0, 0, 0], [5, U32 + 1, 0],
                   [7, U32 + 1, 0, 0, 0], [10, 0, 256, 0, 0, 0], [10, 0, 1, U32 + 1, 0, 0], [12, 0, 256], [13, U32 + 1, 1],
                   [4, 0, U32 + 1, 0, 0], [7, 0, U32 + 1, 0, 0], [9, 0, U32 + 1, 0], [11, 0, U32 + 1], [12, 0, 3], [13, 0, 0xFF]]
-    r3 = vlib.run_impl("c04_impl.py", {"keydir": KEYDIR, "need_chains": [], "ops": [{"op": "cmd", "cmd": c} for c in cmd_cases]},
+    r3 = run_runner({"keydir": KEYDIR, "need_chains": [], "ops": [{"op": "cmd", "cmd": c} for c in cmd_cases]},
                        timeout=3000)["results"]
     # streams for parse_command: exports of valid commands, plus headers with arbitrary fields and a correct checksum
     streams = []
@@ -650,7 +705,7 @@ def run(tier):
             h = raw_hdr(2, flags, 0x1000, count, crc32_mpeg2(pl)) + pl
         streams.append(h + (rng.choice(okexp) if rng.random() < 0.3 else b""))
     streams += [b"", b"\x00", bytes(15), bytes(16), raw_hdr(2, 0, 0, 16, 0)]
-    r4 = vlib.run_impl("c04_impl.py", {"keydir": KEYDIR, "need_chains": [], "ops": [{"op": "parse_cmds", "data": s.hex()} for s in streams]},
+    r4 = run_runner({"keydir": KEYDIR, "need_chains": [], "ops": [{"op": "parse_cmds", "data": s.hex()} for s in streams]},
                        timeout=3000)["results"]
     # oracles: export -> ROM decode = spec; parse(export) = observation of the built object
     n_cmd_ok = 0
@@ -826,6 +881,18 @@ def run(tier):
         checker_cmd="coqc -R . V Props/C04/*.v (after make Proofs/Sb2AesProofs.vo)",
         assumptions=["all command fields within the range of their container field", "block counter nonce[12:16] + blocks < 2^32",
                      "signature length equals CertBlockV1.signature_size (all keys of the chain have one size)"])
+
+
+def run(tier):
+    rep = vlib.Report(PID, tier)
+    try:
+        return _run(tier, rep)
+    except HarnessProblem as hp:
+        # a failure of the harness itself (runner process, key material, oracle tool) is not a verdict on the property
+        rep.obligation("harness:" + str(hp)[:200], False, str(hp))
+        return rep.finish(rule="the run was aborted by a harness problem before the streams were complete",
+                          trusted_base=["Coq 8.16.1 kernel + vm_compute"], checker_cmd="coqc -R . V Props/C04/*.v",
+                          assumptions=["harness problem: " + str(hp)[:300]])
 
 
 if __name__ == "__main__":
